@@ -25,8 +25,8 @@ const (
 	// limits a redis server itself applies to a request
 	maxReqArgs    = 1024 * 1024
 	maxReqBulkLen = 512 * 1024 * 1024
-	// "*" or "$" + at most 10 digits + CRLF
-	maxReqHeaderLine = 16
+	// "*" or "$" + at most 10 digits + "\r": the longest header line still waiting for its "\n"
+	maxReqHeaderLine = 12
 )
 
 // parseReqLen parses the count of a request ("*<n>") or the length of one of
@@ -52,8 +52,9 @@ func parseReqLen(p []byte, max int) (int, error) {
 // means. line holds the bytes from the start of that line, consumed how many
 // of them the failed read went over. It returns codec.ErrInvalidResp when the
 // bytes received so far can never become a valid header line ("\n" without
-// "\r", an empty line, a "\r" followed by something else, no line end within
-// the longest possible header), otherwise err: more bytes are needed.
+// "\r", an empty line, a "\r" followed by something else, a non-digit behind the
+// marker, no line end within the longest possible header), otherwise err: more
+// bytes are needed.
 func headerLineErr(line []byte, consumed int, err error) error {
 	switch err {
 	case codec.ErrInvalidResp:
@@ -68,6 +69,12 @@ func headerLineErr(line []byte, consumed int, err error) error {
 		}
 		if i := bytes.IndexByte(line, '\r'); i >= 0 && i < len(line)-1 {
 			return codec.ErrInvalidResp
+		}
+		// behind the marker only digits (and the final "\r") can still lead to a valid header
+		for _, b := range line[1:] {
+			if (b < '0' || b > '9') && b != '\r' {
+				return codec.ErrInvalidResp
+			}
 		}
 	}
 	return err
